@@ -4,6 +4,8 @@ import (
 	"fmt"
 	"go/token"
 	"go/types"
+	"sort"
+	"strings"
 
 	"golang.org/x/tools/go/ssa"
 )
@@ -238,4 +240,108 @@ func resultBelowLen(P *Program, f *ssa.Function) bool {
 		}
 	}
 	return nRet > 0
+}
+
+// c13SnipWidth: "each [line] within the width … plus an ellipsis". The lines
+// Snip keeps are lines of its input; the only thing it adds is the ellipsis
+// behind the last one, and it makes room for it by cutting the last match off a
+// last line that is exactly `width` wide. The structural part: whatever the
+// append of the ellipsis is conditioned on is also known where that cut is
+// decided — every branch fact at the append (other than facts about the kept
+// lines themselves) is a branch fact, with the same truth, at the cut — and a
+// flag among them that is carried round the loop is not changed any more once
+// a line has been kept. Then "ellipsis appended" implies "a full-width last
+// line was cut". Seed C13-1r9 conditions the cut on `len(lines) > height` and
+// the append on `len(snipped) < len(lines)`: a text that ends in blank lines
+// gets the ellipsis behind an uncut full-width line.
+func c13SnipWidth(c *Ctx, fn *ssa.Function, H *ssa.BasicBlock, kept *ssa.Phi, ellipsis, width ssa.Value) {
+	P := c.P
+	fname := FuncName(fn)
+	pos := P.Pos(fn.Pos())
+	// the append of the ellipsis
+	var appendAt *ssa.BasicBlock
+	eachInstr(fn, func(b *ssa.BasicBlock, _ int, in ssa.Instruction) {
+		if bo, ok := in.(*ssa.BinOp); ok && bo.Op == token.ADD && unwrapLoad(bo.Y) == ellipsis {
+			appendAt = b
+		}
+	})
+	if appendAt == nil {
+		c.note(fname+"/snip-width", pos, fname, "Snip never appends the ellipsis")
+		return
+	}
+	// the cut: a slice of the matches of a line that drops its tail
+	var cutAt *ssa.BasicBlock
+	eachInstr(fn, func(b *ssa.BasicBlock, _ int, in ssa.Instruction) {
+		if sl, ok := in.(*ssa.Slice); ok && sl.Low == nil && sl.High != nil && H.Dominates(b) {
+			if _, isSl := sl.X.Type().Underlying().(*types.Slice); isSl && !isStringType(sl.X.Type()) {
+				if _, ofStrings := sl.X.Type().Underlying().(*types.Slice).Elem().Underlying().(*types.Slice); ofStrings {
+					cutAt = b
+				}
+			}
+		}
+	})
+	if !c.check(cutAt != nil, fname+"/snip-width-cut", pos, fname, "a full-width last line is cut to make room for the ellipsis", "Snip appends the ellipsis but never cuts a line to make room for it: a last line that fills the width becomes one character too wide") {
+		return
+	}
+	type fk struct {
+		v     ssa.Value
+		truth bool
+	}
+	cutFacts := map[fk]bool{}
+	widthEq := false
+	for _, f := range factsOf(fn).At(cutAt) {
+		cutFacts[fk{f.Cond, f.Truth}] = true
+		if cmp, ok := f.Cmp(); ok && cmp.Op == token.EQL && (unwrapLoad(cmp.Y) == width || unwrapLoad(cmp.X) == width) {
+			widthEq = true
+		}
+	}
+	c.check(widthEq, fname+"/snip-width-guard", P.Pos(cutAt.Instrs[0].Pos()), fname, "the cut is made where the line is exactly `width` wide", "the cut that makes room for the ellipsis is not tied to the line being exactly `width` wide")
+	var missing []string
+	aboutIndex := func(v ssa.Value) bool {
+		bo, ok := v.(*ssa.BinOp)
+		if !ok {
+			return false
+		}
+		for _, side := range []ssa.Value{bo.X, bo.Y} {
+			if ph, ok := unwrapLoad(side).(*ssa.Phi); ok && ph.Block() == H && isInteger(ph.Type()) {
+				return true
+			}
+		}
+		return false
+	}
+	for _, f := range factsOf(fn).At(appendAt) {
+		if aboutIndex(f.Cond) {
+			continue // the walk has ended: says nothing about what was left out
+		}
+		if !cutFacts[fk{f.Cond, f.Truth}] {
+			missing = append(missing, fmt.Sprintf("%s is %v", trimPkg(path(f.Cond)), f.Truth))
+			continue
+		}
+		// a flag carried round the loop: frozen once a line has been kept
+		if ph, ok := f.Cond.(*ssa.Phi); ok && ph.Block() == H {
+			loopPaths, complete := enumeratePathsFrom(fn, H, H, 1024)
+			if !complete {
+				missing = append(missing, "the flag's history cannot be followed")
+				continue
+			}
+			for _, pf := range loopPaths {
+				blocks := pf.blocks[:len(pf.blocks)-1]
+				last := blocks[len(blocks)-1]
+				lc := newLcPath(P, fn, pathFacts{blocks: blocks, facts: pf.facts})
+				var keptEdge, flagEdge ssa.Value
+				for k, p := range H.Preds {
+					if p == last {
+						keptEdge, flagEdge = kept.Edges[k], ph.Edges[k]
+					}
+				}
+				grown := keptEdge != nil && lc.at(keptEdge) != ssa.Value(kept)
+				if grown && flagEdge != nil && lc.at(flagEdge) != ssa.Value(ph) {
+					missing = append(missing, "the flag changes on a trip that keeps a line (path through lines "+pathLines(P, pf)+")")
+				}
+			}
+		}
+	}
+	sort.Strings(missing)
+	c.check(len(missing) == 0, fname+"/snip-width", P.Pos(appendAt.Instrs[0].Pos()), fname, "what the ellipsis is appended under is known where the full-width last line is cut",
+		"the ellipsis is appended under a condition that the cut of a full-width last line does not know ("+strings.Join(missing, "; ")+"): the last line can end up one character wider than the width")
 }
